@@ -33,6 +33,7 @@ def handle (line : String) : String :=
   match fields line with
   | "procargs" :: rest => " ".intercalate ((procArgs (readPieces rest)).map encArg)
   | "parse" :: rest => handleParse rest
+  | "parsev" :: rest => handleParse rest true
   | "tok" :: rest => handleTok rest
   | "macro" :: rest => handleMacro rest
   | "makeargs" :: rest => handleMakeArgs rest
